@@ -1,6 +1,9 @@
 import CJ.Drv.Loop
-/-! Driver for C20 (stub until the models are written). -/
+import CJ.Drv.AtomicStore
+/-! Driver for C20: the atomic-store model. -/
 open CJ.Drv
 
 def main : IO Unit := runDriver fun
+  | "store" :: args => AtomicStore.handle args
+  | "crash" :: args => AtomicStore.handleCrash args
   | _ => none
